@@ -433,3 +433,67 @@ class AuditMatcher:
         if self.used[k] <= self.audited[k][0]:
             return self.audited[k], k
         return None, key
+
+
+CAPACITY_ARG = {"bytes::bytes_mut::BytesMut::with_capacity": 0, "bytes::bytes_mut::BytesMut::zeroed": 0, "alloc::vec::Vec::with_capacity": 0,
+                "alloc::string::String::with_capacity": 0, "bytes::bytes_mut::BytesMut::reserve": 1, "alloc::vec::Vec::reserve": 1,
+                "alloc::vec::Vec::reserve_exact": 1, "alloc::string::String::reserve": 1}
+
+
+def constant_capacity(prog, site, limit=1 << 31):
+    """Structural discharge of a 'capacity overflow' site: the capacity operand is a compile-time constant (literal or
+    named constant) below `limit`.  Returns the constant or None."""
+    if not site.kind.startswith("call:"):
+        return None
+    t = site.body.blocks[site.bb]["t"]
+    f = callee(t)
+    if f is None:
+        return None
+    idx = None
+    for n in (norm(f["name"]), norm(f.get("inst_name") or f["name"])):
+        base = n.split("::<")[0]
+        for k, i in CAPACITY_ARG.items():
+            if n == k or base == k or n.replace("::<T, A>", "").replace("::<T>", "") == k:
+                idx = i
+    if idx is None or idx >= len(t["args"]):
+        return None
+    c = op_const(t["args"][idx])
+    if c is None:
+        return None
+    v = c.get("int")
+    if v is None and c.get("named") in prog.consts:
+        v = prog.consts[c["named"]].get("int")
+    return v if isinstance(v, int) and 0 <= v < limit else None
+
+
+def constant_arithmetic(prog, site):
+    """Structural discharge of an overflow assert whose operands are all compile-time constants (literal or named) and whose
+    result fits the operand type, e.g. `16 * DEFAULT_CAPACITY`.  Returns the value or None."""
+    if not site.kind.startswith("assert:overflow:"):
+        return None
+    t = site.body.blocks[site.bb]["t"]
+    vals = []
+    ty = None
+    for o in t.get("ops", []):
+        c = op_const(o)
+        if c is None:
+            return None
+        v = c.get("int")
+        if v is None and c.get("named") in prog.consts:
+            v = prog.consts[c["named"]].get("int")
+        if not isinstance(v, int):
+            return None
+        vals.append(v)
+        ty = ty or c.get("ty")
+    if len(vals) != 2 or ty is None:
+        return None
+    bits = {"u8": 8, "u16": 16, "u32": 32, "u64": 64, "usize": 64, "i8": 7, "i16": 15, "i32": 31, "i64": 63, "isize": 63, "u128": 128, "i128": 127}.get(ty)
+    if bits is None:
+        return None
+    op = t["kind"].split(":", 1)[1] if ":" in t["kind"] else t["kind"]
+    a, b = vals
+    r = {"Add": a + b, "Sub": a - b, "Mul": a * b}.get(op)
+    if r is None:
+        return None
+    lo = -(1 << bits) if ty.startswith("i") else 0
+    return r if lo <= r < (1 << bits) else None
